@@ -105,6 +105,14 @@ CHECKS = {
             "reference under JIT on, JIT off and with a forced full collection at every allocation (continuations as GC roots).",
             "Trusted: vp/ref_scheme.py. Continuations are delimited per top-level form, so each program is one form; reset/shift is not in the reference yet.",
             "DESIGN.md §3 C08"),
+    "C20": ("exploration",
+            "complete enumeration of finite host-boundary grids on the Rust side (conversion types x boundary values, function signatures x argument tuples x call shapes, stash locations x late uses of a lent reference) against Rust's own TryFrom semantics",
+            "33k checks: every integer width with its own extremes and the neighbours just outside in both directions (script->host through a registered function "
+            "whose body counts its entries, host->script->host); floats incl. signed zero/NaN/infinities/subnormals; the other convertible kinds; 4 signatures x every "
+            "argument tuple of length 0..arity+1 over 9 values, directly and through apply (accepted and entered exactly when arity and kinds match); a reference lent "
+            "by run_with_reference stashed in 12 kinds of places must fail on every later use, leave the host object untouched and allow a second lend.",
+            "Trusted: the expectations (Rust's TryFrom). Registered Custom structs by value, tuples beyond pairs and functions of arity > 3 are not in the grid yet.",
+            "DESIGN.md §3 C20"),
 }
 
 NOT_YET = {}
